@@ -11,6 +11,8 @@
 // takes it as its oracle (trace mode).  Format = lean/Driver/C04.lean.
 #include "vh.h"
 #include <signal.h>
+#include <sys/wait.h>
+#include <unistd.h>
 #include <string.h>
 #include <algorithm>
 #include <condition_variable>
@@ -192,14 +194,16 @@ static std::string show_ord() {
     return s.empty() ? "-" : s;
 }
 
-int main() {
+// one case, in a process of its own: the signal bookkeeping under test is process-wide, so a defect hit by one
+// case (a leaked subscription) must not leak into the next one
+static void run_case(const std::vector<std::string> &lines) {
+    std::cout << std::unitbuf;   // a sanitizer abort must not swallow the lines already produced
     LogOutput_Disable();
     kSig[0] = SIGKILL; kSig[1] = SIGUSR1; kSig[2] = SIGUSR2; kSig[3] = SIGSTOP; kSig[4] = SIGRTMIN + 1; kSig[5] = SIGRTMIN + 2;
     for (auto &w : workers) w.start();
     make_loops();
     reset_all();
-    std::string line;
-    while (std::getline(std::cin, line)) {
+    for (const std::string &line : lines) {
         auto w = vh::words(line);
         if (w.empty()) continue;
         if (w[0] == "case") { reset_all(); std::cout << line << "\n"; continue; }
@@ -287,5 +291,25 @@ int main() {
     reset_all();
     for (int l = 0; l < kNLoop; ++l) { delete loops[l]; loops[l] = nullptr; }
     for (auto &w : workers) w.stop();
+}
+
+int main() {
+    std::vector<std::vector<std::string>> cases;
+    std::string line;
+    while (std::getline(std::cin, line)) {
+        auto w = vh::words(line);
+        if (w.empty()) continue;
+        if (w[0] == "case" || cases.empty()) cases.emplace_back();
+        cases.back().push_back(line);
+    }
+    for (auto &c : cases) {
+        std::cout.flush(); fflush(stdout);
+        pid_t pid = fork();
+        if (pid == 0) { run_case(c); std::cout.flush(); fflush(stdout); _exit(0); }
+        int st = 0;
+        if (pid < 0 || waitpid(pid, &st, 0) < 0) return 3;
+        if (WIFSIGNALED(st)) { signal(WTERMSIG(st), SIG_DFL); ::raise(WTERMSIG(st)); return 4; }
+        if (WIFEXITED(st) && WEXITSTATUS(st) != 0) return WEXITSTATUS(st);
+    }
     return 0;
 }
